@@ -221,22 +221,6 @@ func renderPlain(in []byte, safe bool) ([]byte, []*RootBlock) {
 	return renderWith(&HTMLRenderer{ReferenceMap: refs, IgnoreRaw: safe}, blocks), blocks
 }
 
-// eolToLF maps CRLF and CR to LF.
-func eolToLF(s []byte) []byte {
-	out := make([]byte, 0, len(s))
-	for i := 0; i < len(s); i++ {
-		if s[i] == '\r' {
-			out = append(out, '\n')
-			if i+1 < len(s) && s[i+1] == '\n' {
-				i++
-			}
-		} else {
-			out = append(out, s[i])
-		}
-	}
-	return out
-}
-
 func H_C14_eol(kind, a int) {
 	x := treeInput(kind, a)
 	for _, c := range x {
@@ -304,61 +288,6 @@ func H_C14_pad(kind, a int) {
 	h2 := renderWith(&HTMLRenderer{ReferenceMap: r2}, b2)
 	check(vsame(h2, h1), "C14.pad.html")
 	vdigest(h1)
-}
-
-func hasPrefixAt(s []byte, i int, p string) bool {
-	if i+len(p) > len(s) {
-		return false
-	}
-	for k := 0; k < len(p); k++ {
-		if s[i+k] != p[k] {
-			return false
-		}
-	}
-	return true
-}
-
-// normHTML deletes line endings adjacent to tags outside <pre> (insignificant
-// inter-block whitespace) and trims.
-func normHTML(s []byte) []byte {
-	s = eolToLF(s)
-	var out []byte
-	inPre := false
-	for i := 0; i < len(s); i++ {
-		if hasPrefixAt(s, i, "<pre>") {
-			inPre = true
-		}
-		if hasPrefixAt(s, i, "</pre>") {
-			inPre = false
-		}
-		if s[i] == '\n' && !inPre {
-			prev := byte('>')
-			if len(out) > 0 {
-				prev = out[len(out)-1]
-			}
-			next := byte('<')
-			j := i + 1
-			for j < len(s) && s[j] == '\n' {
-				j++
-			}
-			if j < len(s) {
-				next = s[j]
-			}
-			if prev == '>' || next == '<' {
-				continue
-			}
-		}
-		out = append(out, s[i])
-	}
-	// trim ASCII whitespace
-	a, b := 0, len(out)
-	for a < b && (out[a] == ' ' || out[a] == '\n' || out[a] == '\t') {
-		a++
-	}
-	for b > a && (out[b-1] == ' ' || out[b-1] == '\n' || out[b-1] == '\t') {
-		b--
-	}
-	return out[a:b]
 }
 
 func H_C14_final(kind, a int) {
